@@ -132,11 +132,9 @@ package server
 //@   requires len(b.Digest) >= 19
 
 // ==== C03 (B): order of effects in PullModel ====
-// Ghost sets of layer indices, encoded in ghost integers: vin(g, k) "k is in g", vadd(g, k) = g + {k}.
-//@ spec func vin(g int, k int) bool
-//@ spec func vadd(g int, k int) int
-//@ axiom forall g int, k int, j int :: vin(vadd(g, k), j) <==> (j == k || vin(g, j))
-//@ axiom forall j int :: !vin(0, j)
+// wk() is an arbitrary fixed layer index (uninterpreted constant): what is proved about it holds
+// for every index. The ghost flags record what happened to layer wk() in this call.
+//@ spec func wk() int
 
 //@ extern func os.WriteFile
 //@   modifies nothing
@@ -150,33 +148,38 @@ package server
 //@   modifies nothing
 
 // Loops: 1 old manifest's layers (deleteMap)   2 download   3 verify.
-// ghost_dl     indices k for which downloadBlob(layers[k]) returned a nil error
-// ghost_fresh  indices k for which it returned cacheHit == false: the blob was put under its final
-//              name by this call (blobDownload.run renames before any verification)
-// ghost_ver    indices k for which verifyBlob(layers[k].Digest) returned nil
-// ghost_rm     indices k for which os.Remove(blob) was called after a digest mismatch
+// (inside a range loop body the index of the current element is rangeindex + 1)
+// ghost_wdl    1 iff downloadBlob(layers[wk()]) returned a nil error
+// ghost_wfresh 1 iff it returned cacheHit == false: the blob was put under its final name by this
+//              call (blobDownload.run renames before any verification)
+// ghost_wver   1 iff verifyBlob(layers[wk()].Digest) returned nil
+// ghost_wrm    1 iff os.Remove(blob of layers[wk()]) was called (after a digest mismatch)
 // ghost_mm     1 after errors.Is(err, errDigestMismatch) was true for the layer being verified
+// ghost_rm     1 after os.Remove was called for the layer being verified
 //@ func PullModel
 //@   assume-at call GetBlobsPath #1 : ErrInvalidDigestFormat != nil   -- package-level errors.New value, assigned once at package init, never reassigned
-//@   ghost-at entry : ghost_dl := 0
-//@   ghost-at entry : ghost_fresh := 0
-//@   ghost-at entry : ghost_ver := 0
-//@   ghost-at entry : ghost_rm := 0
+//@   ghost-at entry : ghost_wdl := 0
+//@   ghost-at entry : ghost_wfresh := 0
+//@   ghost-at entry : ghost_wver := 0
+//@   ghost-at entry : ghost_wrm := 0
 //@   ghost-at entry : ghost_mm := 0
-//@   ghost-at after call downloadBlob #1 : ghost_dl := ite(result.1 == nil, vadd(ghost_dl, rangeindex), ghost_dl)
-//@   ghost-at after call downloadBlob #1 : ghost_fresh := ite(result.1 == nil && !result.0, vadd(ghost_fresh, rangeindex), ghost_fresh)
-//@   ghost-at after call verifyBlob #1 : ghost_ver := ite(result == nil, vadd(ghost_ver, rangeindex), ghost_ver)
+//@   ghost-at entry : ghost_rm := 0
+//@   ghost-at after call downloadBlob #1 : ghost_wdl := ite(rangeindex + 1 == wk() && result.1 == nil, 1, ghost_wdl)
+//@   ghost-at after call downloadBlob #1 : ghost_wfresh := ite(rangeindex + 1 == wk() && result.1 == nil && !result.0, 1, ghost_wfresh)
+//@   ghost-at after call verifyBlob #1 : ghost_wver := ite(rangeindex + 1 == wk() && result == nil, 1, ghost_wver)
 //@   ghost-at after call Is #2 : ghost_mm := ite(result, 1, 0)
-//@   ghost-at after call os.Remove #1 : ghost_rm := vadd(ghost_rm, rangeindex)
-//@   loop 2 invariant ghost_ver == 0 && ghost_rm == 0 && ghost_mm == 0
-//@   loop 2 invariant forall k int :: 0 <= k && k <= rangeindex ==> vin(ghost_dl, k)
-//@   loop 2 invariant forall k int :: vin(ghost_fresh, k) ==> 0 <= k && k <= rangeindex
-//@   loop 2 invariant forall k int :: 0 <= k && k <= rangeindex && vin(ghost_fresh, k) ==> !skipVerify[layers[k].Digest]
-//@   loop 3 invariant ghost_rm == 0 && ghost_mm == 0
-//@   loop 3 invariant forall k int :: 0 <= k && k < len(layers) ==> vin(ghost_dl, k)
-//@   loop 3 invariant forall k int :: vin(ghost_fresh, k) ==> 0 <= k && k < len(layers)
-//@   loop 3 invariant forall k int :: 0 <= k && k < len(layers) && vin(ghost_fresh, k) ==> !skipVerify[layers[k].Digest]
-//@   loop 3 invariant forall k int :: 0 <= k && k <= rangeindex && vin(ghost_fresh, k) ==> vin(ghost_ver, k)
+//@   ghost-at after call os.Remove #1 : ghost_rm := 1
+//@   ghost-at after call os.Remove #1 : ghost_wrm := ite(rangeindex + 1 == wk(), 1, ghost_wrm)
+//@   loop 2 invariant ghost_wver == 0 && ghost_wrm == 0 && ghost_rm == 0 && ghost_mm == 0
+//@   loop 2 invariant 0 <= wk() && wk() <= rangeindex ==> ghost_wdl == 1
+//@   loop 2 invariant ghost_wfresh == 1 ==> 0 <= wk() && wk() <= rangeindex
+// a layer that this call downloaded is not marked "skip verification"
+//@   loop 2 invariant ghost_wfresh == 1 ==> !skipVerify[layers[wk()].Digest]
+//@   loop 3 invariant ghost_wrm == 0 && ghost_rm == 0 && ghost_mm == 0
+//@   loop 3 invariant 0 <= wk() && wk() < len(layers) ==> ghost_wdl == 1
+//@   loop 3 invariant ghost_wfresh == 1 ==> 0 <= wk() && wk() < len(layers)
+//@   loop 3 invariant ghost_wfresh == 1 ==> !skipVerify[layers[wk()].Digest]
+//@   loop 3 invariant ghost_wfresh == 1 && wk() <= rangeindex ==> ghost_wver == 1
 // the manifest is written only when every layer was obtained and every freshly downloaded one verified
-//@   assert-at call WriteFile #1 : forall k int :: 0 <= k && k < len(layers) ==> vin(ghost_dl, k)
-//@   assert-at call WriteFile #1 : forall k int :: 0 <= k && k < len(layers) && vin(ghost_fresh, k) ==> vin(ghost_ver, k)
+//@   assert-at call WriteFile #1 : 0 <= wk() && wk() < len(layers) ==> ghost_wdl == 1
+//@   assert-at call WriteFile #1 : ghost_wfresh == 1 ==> ghost_wver == 1
